@@ -84,7 +84,7 @@ func (p *PropConfig) selects(o *Obligation) bool {
 		if s.nre != nil && !s.nre.MatchString(o.Name) {
 			continue
 		}
-		if len(s.Kinds) == 0 {
+		if len(s.Kinds) == 0 || o.Kind == "contract" || o.Kind == "canary" || o.Kind == "cover" {
 			return true
 		}
 		fam := strings.SplitN(o.Kind, ".", 2)[0]
